@@ -2,7 +2,10 @@
 
 package vsched
 
-import "sort"
+import (
+	"sort"
+	"time"
+)
 
 // Run is one explored schedule.
 type Run struct {
@@ -39,6 +42,13 @@ func RunSchedule(setup func(c *Ctl) (finish func(r *Run)), prefix []string, orde
 			}
 		}
 		if len(en) == 0 {
+			// nothing can move - unless a thread is only momentarily blocked in the runtime (a contended
+			// lock of code that is not under the controller, the collector): look again a few times
+			// before the run is declared over
+			if !ctl.confirmQuiet() {
+				step--
+				continue
+			}
 			break
 		}
 		sort.SliceStable(en, func(i, j int) bool { return order[en[i]] < order[en[j]] })
@@ -151,6 +161,13 @@ func runRandomOnce(setup func(c *Ctl) (finish func(r *Run)), order map[string]in
 			}
 		}
 		if len(en) == 0 {
+			// nothing can move - unless a thread is only momentarily blocked in the runtime (a contended
+			// lock of code that is not under the controller, the collector): look again a few times
+			// before the run is declared over
+			if !ctl.confirmQuiet() {
+				step--
+				continue
+			}
 			break
 		}
 		sort.SliceStable(en, func(i, j int) bool { return order[en[i]] < order[en[j]] })
@@ -169,4 +186,19 @@ func runRandomOnce(setup func(c *Ctl) (finish func(r *Run)), order map[string]in
 	}
 	ctl.Abandon()
 	return r
+}
+
+// confirmQuiet re-samples the threads a few times, some milliseconds apart; false as soon as a
+// thread has reached a scheduling point at which it is enabled.
+func (c *Ctl) confirmQuiet() bool {
+	for k := 0; k < 3; k++ {
+		time.Sleep(2 * time.Millisecond)
+		c.waitQuiet()
+		for _, st := range c.Statuses() {
+			if st.State == "at" && st.Enabled {
+				return false
+			}
+		}
+	}
+	return true
 }
